@@ -9,6 +9,7 @@ by call site against the listed findings.
 """
 import copy
 import math
+import re
 
 import numpy as np
 
@@ -95,6 +96,7 @@ def inspect(chk, out):
         sites = out.get("sites", [])
         chk.fail("construction of a valid configuration returns without raising", cfg, dict(error=out["error"], site=out["site"], msg=out["msg"]),
                  error=out["error"], site=out["site"], in_determine_index=bool("determine_index" in sites), in_derivs=bool("_derivs_sev" in sites),
+                 unbinned_mass=(lambda mm: float(mm.group(1)) if mm else None)(re.search(r"mass ([0-9.eE+-]+) is above highest bound", out["msg"])),
                  in_dyn_eject=bool("_dyn_eject_BH" in sites), kicks_msg=bool("Natal kicks already removed" in out["msg"]),
                  wd_msg=bool("above highest bound" in out["msg"] and "WD" not in out["msg"] or "above highest bound" in out["msg"]),
                  ret_dyn=cfg.get("BH_ret_dyn"))
@@ -137,8 +139,8 @@ def classify(f):
         if f["clause"] == "star mean masses are finite" and f.get("empty_star_bin"):
             return "empty_star_bin_mean_nan"
         return None
-    if f.get("in_determine_index") and f.get("in_derivs"):
-        return "wd_peak_on_upper_edge"
+    if f.get("in_determine_index") and f.get("in_derivs") and f.get("unbinned_mass") is not None and f["unbinned_mass"] < 1.45:
+        return "wd_peak_on_upper_edge"        # a white-dwarf mass (below the NS mass) on / above the top WD edge; a BH mass is not covered
     if f.get("in_dyn_eject") and f.get("ret_dyn") == 0.0:
         return "eject_exact_total_rounding"
     return None
